@@ -161,6 +161,28 @@ def run_leg(res, tier, seed, kinds):
                 add(('py', 'js'), 'attrvars %%s %s %s %s' % (enc_str(pfx), enc_str(text), enc_list(names)), ('flagonly',))
             add(('py',), 'directvars %s %s' % (enc_str(text), enc_list(names)), None)
 
+    if 'joins' in kinds:
+        from common import enc_table
+        VARS_A = ['a1', 'a2', 'a[1]', 'a.id', 'a["name two"]', 'NR', 'aNR', 'a.NR', 'x', 'shared', 'a3']
+        VARS_B = ['b1', 'b2', 'b[2]', 'b.id', 'b["k"]', 'bNR', 'b.NR', 'y', 'shared', 'b3']
+        for _ in range(3000 if quick else 40000):
+            inm = [[v, str(rnd.randrange(4))] for v in rnd.sample(['a1', 'a2', 'a[1]', 'a.id', 'a["name two"]', 'x', 'shared', 'a3'], rnd.randint(0, 6))]
+            jm = [[v, str(rnd.randrange(4))] for v in rnd.sample(['b1', 'b2', 'b[2]', 'b.id', 'b["k"]', 'y', 'shared', 'b3'], rnd.randint(0, 6))]
+            pairs = []
+            for _i in range(rnd.randint(1, 3)):
+                l, r = rnd.choice(VARS_A), rnd.choice(VARS_B)
+                if rnd.random() < 0.3:
+                    l, r = r, l
+                if rnd.random() < 0.1:
+                    r = rnd.choice(VARS_A)
+                pairs.append([l, r])
+            add(('py', 'js'), 'joinresolve %s %s %s' % (enc_table(inm), enc_table(jm), enc_table(pairs)), None)
+        EXC = ['a1', 'a2', 'a[1]', 'a.id', 'a3', ' a1 ', 'a1 ', '', 'b1', 'a1,a2', '\ta2', 'a.id ', 'a9']
+        for _ in range(2000 if quick else 30000):
+            inm = [[v, str(rnd.randrange(5))] for v in rnd.sample(['a1', 'a2', 'a[1]', 'a.id', 'a3'], rnd.randint(1, 5))]
+            text = rnd.choice([',', ', ', ' ,', ' , ']).join(rnd.choice(EXC) for _i in range(rnd.randint(1, 4)))
+            add(('py', 'js'), 'exceptcols %%s %s %s' % (enc_table(inm), enc_str(text)), ('flagonly',))
+
     # group by implementation; lines with a %s placeholder for the js flag get it filled per implementation
     def vars_canon(line, out):
         if line.startswith('basicvars') or line.startswith('arrayvars'):
@@ -212,6 +234,9 @@ def run_leg(res, tier, seed, kinds):
                 args = l.split(' ')
                 # shrink the text argument (the last but one for colinfos/selinfos, the last otherwise)
                 pos = len(args) - 2 if op in ('colinfos', 'selinfos', 'dictvars', 'attrvars', 'directvars') else len(args) - 1
+                if op == 'joinresolve':
+                    res.violations.append({'property': prop, 'impl': impl, 'why': 'resolve_join_variables differs from its model (Model/JoinResolve.lean)', 'op': op, 'line': l, 'model_says': m, 'impl_says': o, 'case_key': '%s|translate|%s|%s|%s' % (prop, impl, op, l)})
+                    continue
                 text = common.dec_str(args[pos])
 
                 def mk(t, args=args, pos=pos):
